@@ -295,6 +295,7 @@ def prepare(job, workdir, rng_cls):
   d = job.d
   try:
     mod = load_module(workdir, d['src'])
+    job.modname = mod.__name__
     Top = getattr(mod, d.get('top', 'Top'))
   except Exception as e:
     job.stage, job.info = 'gen-error', f'{type(e).__name__}: {e}'[:300]; return
@@ -512,7 +513,7 @@ def loop_header_mismatches(job):
 # ---------------------------------------------------------------------------------------------
 # one batch through the whole pipeline
 # ---------------------------------------------------------------------------------------------
-def run_batch(ck, be, designs, stats, ncycles, nstores, tie=True):
+def run_batch(ck, be, designs, stats, ncycles, nstores, tie=True, keep=False):
   """designs: list of dicts from c03_gen (src, label, finding?, variant?, expect?, cycles?).
   Emits ck.count / ck.hist / ck.violation / ck.disagreement."""
   import random
@@ -627,6 +628,16 @@ def run_batch(ck, be, designs, stats, ncycles, nstores, tie=True):
       if m[0] != 'line': stats['tie:' + m[0]] = stats.get('tie:' + m[0], 0) + 1
     if d.get('finding') and not found:
       stats['finding-not-reproduced:' + d['finding']] = stats.get('finding-not-reproduced:' + d['finding'], 0) + 1
+  if not keep:
+    # release the elaborated components and the generated modules (thousands of designs per run)
+    for j in jobs:
+      mn = getattr(j, 'modname', None)
+      if mn:
+        sys.modules.pop(mn, None)
+        try: os.remove(os.path.join(ck.workdir, mn + '.py'))
+        except OSError: pass
+      j.top2 = j.parsed = j.ptop = j.mapped = j.pytrace = j.ports = None
+    import gc; gc.collect()
   return jobs
 
 def hash_text(s):
